@@ -380,3 +380,115 @@ def ilu_fill_tolerance_rule(chk, cid, prog, p, cfgname):
         from ..run import AnalysisBroken
         raise AnalysisBroken('%s: %d calls of ilu_%spivotL with an amax factor, expected 2' % (f.name, n, p))
     return n
+
+
+def hole_fill_rule(chk, cid, prog, p, cfgname):
+    """Dropping compacts an array in place: `for (i = lo; i <= last; ) { if (drop) { a[i] = a[last]; last--; continue; } i++; }`.  The loop
+    test `i <= last` is what vouches that slot `last` is a live, not yet examined element at or behind the hole; the copy must read that very
+    slot, so `last` may not change between the test and the copy (a decrement first reads slot last-1: for i == last an already kept element
+    is duplicated and the live one is lost).  Applies to the structure arrays of U (usub/ucol in ilu_?copy_to_ucol) and L (lsub in
+    ilu_?drop_row); scratch norm vectors are not structure and are left alone."""
+    from ..facts import strip, canon, loc, root_ref
+    from ..ir import pretty
+    from ..run import AnalysisBroken
+    STRUCT = {'ilu_%scopy_to_ucol' % p: ('usub', 'ucol'), 'ilu_%sdrop_row' % p: ('lsub',)}
+    total = 0
+    for fname, arrays in STRUCT.items():
+        f = prog.func(fname)
+        if f is None:
+            raise AnalysisBroken('%s not found' % fname)
+        chk.saw(unit=f.unit, func=f.unit + ':' + f.name)
+        cfg = prog.cfg(f)
+        n = 0
+        for loop in f.body.walk():
+            if loop.k != 'For':
+                continue
+            cond = strip(loop.c[1]) if loop.c[1] is not None else None
+            if cond is None or cond.k != 'Binary' or cond.a['op'] not in ('<=', '<'):
+                continue
+            iv, bv = strip(cond.c[0]), strip(cond.c[1])
+            if iv.k != 'Ref' or bv.k != 'Ref':
+                continue
+            bid = bv.a.get('id')
+            copies = []
+            for a in loop.c[3].walk():
+                if a.k == 'Assign' and a.a['op'] == '=' and strip(a.c[0]).k == 'Index' and strip(a.c[1]).k == 'Index':
+                    l, r = strip(a.c[0]), strip(a.c[1])
+                    if root_ref(l) is None or root_ref(r) is None or root_ref(l).a.get('name') not in arrays:
+                        continue
+                    if root_ref(l).a.get('id') != root_ref(r).a.get('id'):
+                        continue
+                    if any(y.k == 'Ref' and y.a.get('id') == iv.a.get('id') for y in l.c[1].walk()) and \
+                       any(y.k == 'Ref' and y.a.get('id') == bid for y in r.c[1].walk()):
+                        copies.append(a)
+            if not copies:
+                continue
+            # CFG nodes of the loop test and of each copy
+            cnode = None
+            node_of = {}
+            for cn in cfg.nodes:
+                if cn.ast is None:
+                    continue
+                if cn.kind == 'cond' and (cn.ast is loop.c[1] or strip(cn.ast) is cond):
+                    cnode = cn.id
+                if cn.kind in ('stmt', 'cond'):
+                    for x in cn.ast.walk():
+                        node_of.setdefault(id(x), cn.id)
+            if cnode is None:
+                raise AnalysisBroken('%s: loop test `%s` not found in the CFG' % (fname, pretty(cond)))
+
+            def modifies(cn):
+                if cn.ast is None or cn.kind not in ('stmt', 'cond'):
+                    return None
+                for x in cn.ast.walk():
+                    if x.k == 'Assign' and strip(x.c[0]).k == 'Ref' and strip(x.c[0]).a.get('id') == bid:
+                        return x
+                    if x.k == 'Unary' and x.a['op'] in ('++', '--', 'post++', 'post--') and strip(x.c[0]).k == 'Ref' and strip(x.c[0]).a.get('id') == bid:
+                        return x
+                return None
+            for a in copies:
+                tgt = node_of.get(id(a))
+                # forward from the true edge of the test, not through the test again
+                fwd = set()
+                st = [s for (s, lab) in cfg.nodes[cnode].succ if lab is True]
+                while st:
+                    q = st.pop()
+                    if q in fwd or q == cnode:
+                        continue
+                    fwd.add(q)
+                    if q == tgt:
+                        continue
+                    st.extend(s for (s, _) in cfg.nodes[q].succ)
+                # backward from the copy
+                pred = {}
+                for cn in cfg.nodes:
+                    for (s, _) in cn.succ:
+                        pred.setdefault(s, []).append(cn.id)
+                bwd = set()
+                st = list(pred.get(tgt, []))
+                while st:
+                    q = st.pop()
+                    if q in bwd or q == cnode:
+                        continue
+                    bwd.add(q)
+                    st.extend(pred.get(q, []))
+                between = fwd & bwd
+                bad = None
+                for q in sorted(between):
+                    m = modifies(cfg.nodes[q])
+                    if m is not None:
+                        bad = m
+                        break
+                n += 1
+                inst = '%s:hole-filled-from-the-vouched-slot:%s@%d' % (fname, root_ref(a.c[0]).a.get('name'), n)
+                if bad is None:
+                    chk.ok(cid, inst, sample='`%s` under `%s`, %d statements between test and copy leave %s alone' % (pretty(a)[:40], pretty(cond), len(between), bv.a['name']))
+                else:
+                    chk.violate(cid, inst, loc(f, a), fname,
+                                '`%s` fills the hole from slot %s, but `%s` (line %d) changes %s after the loop test `%s` vouched for that slot: the copy reads '
+                                'a different element (for i == %s an element that was already kept is duplicated and the live one is lost)'
+                                % (pretty(a)[:50], bv.a['name'], pretty(bad)[:20], bad.line, bv.a['name'], pretty(cond), bv.a['name']), cfgname=cfgname)
+        total += n
+    if total < 4:
+        raise AnalysisBroken('hole_fill_rule(%s): %d compaction copies found, expected >= 4' % (p, total))
+    return total
